@@ -470,7 +470,9 @@ class HTTPChannel(wasyncore.dispatcher):
             else:
                 task.close_on_finish = True
 
-        if task.close_on_finish:
+        if task.close_on_finish or self.will_close:
+            # will_close: flushing from this thread hit a socket error and
+            # the channel is going to be closed; nothing queued may run
             with self.requests_lock:
                 self.close_when_flushed = True
 
@@ -504,7 +506,7 @@ class HTTPChannel(wasyncore.dispatcher):
             with self.requests_lock:
                 self.requests.pop(0)
 
-                if self.connected and self.requests:
+                if self.connected and self.requests and not self.will_close:
                     self.server.add_task(self)
                 elif (
                     self.connected
